@@ -200,6 +200,7 @@ def run(chk, facts, tier, only=None, floor=60):
         chk.include(c08, "C08.R2", "C09.R4", facts)
         import c02
         chk.include(c02, "C02.R14", "C09.R6", facts)    # out-of-range strings are rejected also below an opt (range errors are not coercion failures)
+        chk.include(c08, "C08.R3", "C09.R7", facts)     # a number that leaves the LEB128 reader for a Nat/Int visitor travels as to_bytes_le / to_signed_bytes_le and is read back with the inverse
 
 
 def run_config(chk, facts, cfg):
